@@ -67,7 +67,11 @@ func (h *encHooks) writerName(fn *ssa.Function) string {
 		return ""
 	}
 	if pt, ok := recv.Type().(*types.Pointer); ok && types.Identical(pt.Elem(), h.bufT) {
-		return fn.Name()
+		// the number and colour writers (encodeXxx) are summarised; other methods of the buffer type are plain
+		// helpers (byte-order helpers and the like) and are entered like any other function
+		if strings.HasPrefix(fn.Name(), "encode") {
+			return fn.Name()
+		}
 	}
 	return ""
 }
